@@ -58,4 +58,18 @@ theorem countPlain_spec {m : Map} (hs : Sorted m) (pfx : Bytes) (hq : prefixUppe
   rw [R.prefixCount_spec hf]
   simp [ordered, live, List.filter_reverse]
 
+/-- the complete `List` answer on a single database. -/
+theorem listPlain_spec {m : Map} (hs : Sorted m) (pfx key : Bytes) (count dir : Nat)
+    (hq : prefixUpper pfx ≠ some emptyValue) :
+    listPlain m pfx key count dir
+      = some (listSpec (fun rev => ordered rev (withPrefix m pfx)) key count dir) := by
+  unfold listPlain
+  apply list_spec_of_cursors (inv := fun _ => Iter.WF) (rest := Iter.rest)
+  · intro rev
+    have R := iterRangeCursor (Iter.wf_mk' hs pfx none rev)
+    rw [plain_all m pfx rev hq] at R
+    exact R
+  · intro rev
+    rw [length_ordered]; have := withPrefix_length_le m pfx; omega
+
 end C07
